@@ -2,8 +2,8 @@ SPECIFICATION Spec
 CONSTANTS
   MaxLen = 6
   MaxDepth = 3
-  Conds = {"T", "F", "V", "N", "R"}
-  Kinds = {"if", "elif", "ifdef", "ifndef", "elifdef", "elifndef", "else", "endif", "text", "def0", "def1", "undef", "warn", "err", "inc", "inc2", "push", "pop", "noise"}
+  Conds = {"T", "F", "D"}
+  Kinds = {"if", "elif", "ifdef", "elifndef", "else", "endif", "text", "def1", "undef", "inc2", "noise"}
   MinDump = 6
 INVARIANT Refines
 INVARIANT ClosedNormal
